@@ -293,9 +293,8 @@ func (vc *VC) valueFacts(st *State, v Term, t types.Type, depth int) Term {
 	case *types.Pointer:
 		fs := []Term{Le(Base(v), st.top), Le(IntLit(0), Base(v)), Implies(Not(Eq(v, IntLit(0))), Lt(IntLit(0), Base(v)))}
 		if isStruct(u.Elem()) {
-			if _, named := u.Elem().(*types.Named); named {
-				_ = named
-			}
+			// Go's type safety: a non-nil *T points to an object of type T
+			fs = append(fs, Implies(Not(Eq(v, IntLit(0))), Eq(RType(v), IntLit(int64(vc.tagOf(u.Elem()))))))
 		}
 		return And(fs...)
 	case *types.Map, *types.Chan:
@@ -307,6 +306,10 @@ func (vc *VC) valueFacts(st *State, v Term, t types.Type, depth int) Term {
 			alts = append(alts, Eq(IfTag(v), IntLit(0)))
 			for _, ct := range vc.p.implementers(t) {
 				alts = append(alts, Eq(IfTag(v), IntLit(int64(vc.tagOf(ct)))))
+				if pt, ok := ct.Underlying().(*types.Pointer); ok && isStruct(pt.Elem()) {
+					// module code never stores a typed nil pointer in a closed interface
+					fs = append(fs, Implies(Eq(IfTag(v), IntLit(int64(vc.tagOf(ct)))), And(Not(Eq(IfVal(v), IntLit(0))), Eq(RType(IfVal(v)), IntLit(int64(vc.tagOf(pt.Elem())))))))
+				}
 			}
 			fs = append(fs, Or(alts...))
 		}
